@@ -81,7 +81,9 @@ class C23(core.Check):
         decl = case['decl']
         target = self._target(case)
         arg = target
-        if case.get('rel') and route != 'compile_py':
+        if case.get('rel') and route == 'compile_py':
+            fs.cwd = os.path.join(ROOT, 'out')
+        elif case.get('rel'):
             # the target is given as a bare file name, relative to the (virtual) current directory
             fs.cwd = os.path.dirname(target)
             arg = os.path.basename(target)
@@ -93,7 +95,11 @@ class C23(core.Check):
                 if route == 'emit_py':
                     ffi.emit_python_code(arg); return None
                 if route == 'compile_py':
-                    r = ffi.compile(tmpdir=os.path.join(ROOT, 'out'))
+                    if case.get('rel'):
+                        r = ffi.compile()          # tmpdir defaults to '.', the (virtual) current directory
+                        r = os.path.normpath(os.path.join(fs.cwd, r))
+                    else:
+                        r = ffi.compile(tmpdir=os.path.join(ROOT, 'out'))
                     if r != target:
                         raise HarnessError('compile() wrote to %r, expected %r' % (r, target))
                     return None
